@@ -496,3 +496,19 @@ PROPS["C06"] = dict(
                     tiers=("quick", "thorough") if t in C06_THREADS_QUICK else ("thorough",)) for t in C06_THREADS_ALL]
            + [Stage("c06", pkg="mon_stark", kind="tsan", threads=5, args=["--n", "10", "--maxlogn", "11"], timeout=(1200, 3600))],
 )
+
+PROPS["C07"] = dict(
+    level="exploration",
+    rule="TraceInfo: main width {1,2,3,127,128,253,254,255} x aux width {0,1,2,127,253,254} x random elements {0,1,2,128,254,255} "
+         "x length 2^3..2^40 (thorough every exponent up to 2^63) x metadata {0,1,7,255,256,65535 bytes}; ProofOptions: every "
+         "bound of every field, all 27 enum triples, EVERY partition setting 1..16 x 1..256; Context over 3 fields x kept "
+         "infos x kept options x constraint counts {1,2,100,65536,2^32-1}; digests of 6 hashers from hashing and from "
+         "boundary limb encodings (Rp62 31-byte packing); 66 (2000) generated proofs at extreme shapes (width up to 255, "
+         "n = 8, 1 query, remainder degree 255, 65535 metadata bytes, random) with their Commitments / Queries / OodFrame / "
+         "FriProof / Context: decode(encode(x)) == x, no bytes left, identical re-encoding, same verification verdict "
+         "for the decoded proof; BatchMerkleProof round trips are exercised under C18; distinct = values",
+    assumptions=["values are built through the public constructors only; a constructor panic on a documented-valid value is a violation",
+                 "255-query proofs are covered by C01's directed case (which also re-verifies the decoded proof)"],
+    floor=1000,
+    stages=[Stage("c07", pkg="mon_stark", variant="rel"), Stage("c07", pkg="mon_stark", variant="chk", args=["--n", "22"])],
+)
